@@ -40,6 +40,7 @@ def run(ctx):
         arthist.histories(ctx, False, tmp, mode="C10")
         chained_existence(ctx, tmp)
         big_removal(ctx, tmp)
+        mexists_unit(ctx, built, tmp)
 
 
 def correspondence(ctx, model_ok, tmp):
@@ -365,6 +366,109 @@ def big_removal(ctx, tmp):
         viol(f"pruneDatasets(purge) of {N} datasets in one call left {len(left & {r.id for r in refs})} of them registered "
              f"(and {'kept' if keep[0].id in left else 'lost'} the untargeted one)", "big-purge", {"kind": "big-removal", "n": N})
     ctx.nontrivial.add("big-removal")
+
+
+def mexists_unit(ctx, model_ok, tmp):
+    """The real FileDatastore._process_mexists_records on generated record sets — several datasets per artifact, several
+    artifacts per dataset, URIs answered in advance, a (stubbed) local cache — against Model/Mexists.lean; without cache and
+    advance answers the result is also held against the files themselves."""
+    from lsst.daf.butler import DatasetRef, DatasetType, StorageClassFactory
+    from lsst.daf.butler.datastore.stored_file_info import StoredFileInfo
+
+    rng = ctx.rng
+    root = os.path.join(tmp, "mx")
+    b = repo.make_butler(root)
+    repo.basic_dimensions(b, detectors=tuple(range(1, 9)))
+    ds = b._datastore
+    dt = DatasetType("mx", {"instrument", "detector"}, "StructuredDataDict", universe=b.dimensions)
+    sc = StorageClassFactory().getStorageClass("StructuredDataDict")
+    refs = {d: DatasetRef(dt, {"instrument": "I", "detector": d}, run="mxrun") for d in range(1, 9)}
+    os.makedirs(os.path.join(root, "mxfiles"), exist_ok=True)
+
+    def viol(what, key, replay):
+        ctx.violations.append(core.Violation(what=what, key=key, replay=replay))
+
+    class CacheStub:
+        def __init__(self, cached):
+            self.cached = cached
+            self.file_count = 1 if cached is not None else 0
+
+        def known_to_cache(self, ref, extension=None):
+            return ref.dataId["detector"] in (self.cached or ())
+
+    real_cache = ds.cacheManager
+    req, impl = [], []
+    try:
+        for case in range(200 if ctx.quick() else 5000):
+            n_uri = rng.randint(1, 5)
+            records = {}
+            for d in rng.sample(sorted(refs), rng.randint(1, 6)):
+                us = [rng.randint(1, n_uri) for _ in range(rng.choice([0, 1, 1, 1, 2, 3]))]
+                records[d] = us
+            present = {u for u in range(1, n_uri + 1) if rng.random() < 0.6}
+            for u in range(1, n_uri + 1):
+                f = os.path.join(root, "mxfiles", f"u{u}.yaml")
+                if u in present:
+                    open(f, "w").write("a: 1\n")
+                elif os.path.exists(f):
+                    os.remove(f)
+            use_cache = rng.random() < 0.25
+            cached = set(d for d in records if rng.random() < 0.4) if use_cache else None
+            use_known = rng.random() < 0.3
+            all_required = rng.random() < 0.7
+            info = lambda u: StoredFileInfo("lsst.daf.butler.formatters.yaml.YamlFormatter", f"mxfiles/u{u}.yaml", sc, None, None, 5)  # noqa: E731
+            rec_arg = {refs[d].id: [info(u) for u in us] for d, us in records.items() if us}
+            id_to_ref = {refs[d].id: refs[d] for d in records}
+            known = {}
+            if use_known:
+                for u in range(1, n_uri + 1):
+                    if rng.random() < 0.4:
+                        known[u] = rng.random() < 0.5
+            art = {info(u).file_location(ds.locationFactory).uri: v for u, v in known.items()} if use_known else None
+            ds.cacheManager = CacheStub(cached)
+            try:
+                out = ds._process_mexists_records(id_to_ref, rec_arg, all_required, artifact_existence=art)
+                got = {r_.dataId["detector"]: v for r_, v in out.items()}
+                text = ",".join(f"{d}={1 if v else 0}" for d, v in sorted(got.items())) or "-"
+            except Exception as e:
+                got, text = None, f"{type(e).__name__}: {str(e)[:80]}"
+            ctx.evaluations += 1
+            ctx.count(f"mexists-unit:{'cache' if use_cache else 'nocache'}:{'known' if use_known else 'fresh'}")
+            shared = len({u for us in records.values() for u in us}) < sum(len(set(us)) for us in records.values())
+            if shared:
+                ctx.nontrivial.add(("mx", case))
+            req.append(f"mx run {1 if all_required else 0} {1 if use_cache else 0} " + (";".join(f"{d}:{','.join(map(str, us)) or '-'}" for d, us in sorted(records.items())) or "-")
+                       + " " + (",".join(f"{d}.{u}" for d in sorted(cached or ()) for u in sorted(set(records[d]))) or "-")
+                       + " " + (",".join(f"{u}={1 if v else 0}" for u, v in sorted(known.items())) or "-") + " " + (",".join(map(str, sorted(present))) or "-"))
+            impl.append(text)
+            if got is None:
+                viol(f"_process_mexists_records raised {text} for records {records}", f"mx-raise:{records}", {"kind": "mexists-unit", "records": {str(k): v for k, v in records.items()}})
+                continue
+            if not use_cache and not use_known:
+                want = {d: (all(u in present for u in us) if all_required else any(u in present for u in us)) for d, us in records.items() if us}
+                if got != want:
+                    viol(f"_process_mexists_records(all_required={all_required}) over records {records} with files {sorted(present)} present answers {got}; "
+                         f"the files say {want}", f"mx:{sorted(records.items())}:{sorted(present)}:{all_required}",
+                         {"kind": "mexists-unit", "records": {str(k): v for k, v in records.items()}, "present": sorted(present), "all_required": all_required})
+            if art is not None:
+                # every URI that was looked at is reported back to the caller with the answer that was used
+                for u in {u for us in records.values() for u in us}:
+                    uri = info(u).file_location(ds.locationFactory).uri
+                    if uri not in art:
+                        viol(f"artifact_existence was not told about u{u} (records {records})", f"mx-art:{sorted(records.items())}:{u}", {"kind": "mexists-unit"})
+                        break
+    finally:
+        ds.cacheManager = real_cache
+    if model_ok:
+        got = core.driver(req)
+        nd = 0
+        for line, m, i in zip(req, got, impl):
+            if m != i:
+                nd += 1
+                if nd <= 5:
+                    ctx.broken.append(f"correspondence (mexists): `{line}` model={m} implementation={i}")
+        ctx.extra["mexists_correspondence_lines"] = len(req)
+        ctx.extra["mexists_correspondence_disagreements"] = nd
 
 
 def replay(ctx, content):
